@@ -67,8 +67,8 @@ type sem struct {
 type format struct {
 	rule string // name of the rule in the specification
 	L    func(g *grpModel) int
-	sem  func(g *grpModel, b []byte) sem   // only called with len(b) = L
-	enc  func(g *grpModel, p pt) []byte    // independent encoder; nil if the element has no encoding in this format
+	sem  func(g *grpModel, b []byte) sem // only called with len(b) = L
+	enc  func(g *grpModel, p pt) []byte  // independent encoder; nil if the element has no encoding in this format
 }
 
 // coordinate codecs: one base-field element <-> bytes
